@@ -214,6 +214,44 @@ Theorem C19_each_own : forall fx s i s' q, Inv s -> step fx s (Notify i) = Ok s'
 Proof. exact notify_only_owner. Qed.
 Print Assumptions C19_each_own.
 
+(* A reply completes AT MOST one waiter (two calls whose records change under one notification are the
+   same call), and exactly the owner of the entry when there is one. *)
+Theorem C19_reply_completes_at_most_one : forall fx s i s' q1 q2, Inv s -> step fx s (Notify i) = Ok s' ->
+  pget (pings s') q1 <> pget (pings s) q1 -> pget (pings s') q2 <> pget (pings s) q2 -> q1 = q2.
+Proof. exact notify_at_most_one. Qed.
+Print Assumptions C19_reply_completes_at_most_one.
+
+Theorem C19_reply_completes_owner : forall fx s i q pg, Inv s ->
+  tget (tbl s) i = Some q -> pget (pings s) q = Some pg ->
+  exists s', step fx s (Notify i) = Ok s' /\ tget (tbl s') i = None /\
+    (exists pg', pget (pings s') q = Some pg' /\ p_recv pg' = true) /\
+    (forall q', q' <> q -> pget (pings s') q' = pget (pings s) q').
+Proof. exact notify_exactly_owner. Qed.
+Print Assumptions C19_reply_completes_owner.
+
+(* non-vacuity of the hypotheses [Inv s], "an entry exists", "table not full", "two outstanding unwoken
+   calls": a reachable state with two such calls *)
+Example C19_two_outstanding :
+  exists s, run FIX24 init_go ex_two = Ok s /\ Inv s /\
+    tget (tbl s) 1 = Some 0%nat /\ tget (tbl s) 2 = Some 1%nat /\ table_full (tbl s) = false /\
+    waiting s 0%nat = true /\ waiting s 1%nat = true /\ id_of s 0%nat = Some 1 /\ id_of s 1%nat = Some 2.
+Proof. exact two_outstanding. Qed.
+Print Assumptions C19_two_outstanding.
+
+Example C19_send_error_example :
+  exists s, run FIX24 init_go ([] ++ Begin 0%nat 0%Z :: [Notify 1] ++ Sent 0%nat false :: [Notify 1]) = Ok s /\
+            result_of s 0%nat = Some RSendErr /\ tbl s = [].
+Proof. exact send_error_example. Qed.
+Print Assumptions C19_send_error_example.
+
+Example C19_foreign_nonvacuous :
+  exists s, run FIX24 (init 1) ([] ++ Begin 0%nat SECOND :: ex_foreign_mid ++ End 0%nat :: []) = Ok s /\
+    (forall e, In e ex_foreign_mid ->
+       (exists f, e = frame_event f /\ rfc_reply_id f <> id_of s 0%nat) \/ (forall j, e <> Notify j)) /\
+    result_of s 0%nat = Some RTimeout.
+Proof. exact foreign_nonvacuous. Qed.
+Print Assumptions C19_foreign_nonvacuous.
+
 Theorem C19_reachable_Inv : forall fx n tr s, n < 65536 -> run fx (init n) tr = Ok s -> Inv s.
 Proof. exact Inv_run. Qed.
 Print Assumptions C19_reachable_Inv.
